@@ -438,7 +438,7 @@ class Escape:
             cur = P.parent.get(id(cur))
         return isinstance(cur, ast.Raise)
 
-    def _may_render_huge_int(self, v, f, n):
+    def _may_render_huge_int(self, v, f, n, _depth=0):
         """Rendering `v` into an exception message may have to convert an arbitrarily large integer (taken from the
         schema or the value) to text: ValueError beyond sys.get_int_max_str_digits() digits."""
         if not self._message_site(f, n):
@@ -450,9 +450,23 @@ class Escape:
         if isinstance(v, ast.Call):
             d = dotted(v.func) or ""
             if d == "repr" and v.args:
-                return self._may_render_huge_int(v.args[0], f, v)
+                return self._may_render_huge_int(v.args[0], f, n, _depth + 1)
             if d.split(".")[-1] in ("_safe_repr", "len", "type", "join", "format", "lstrip", "rstrip", "strip", "lower", "upper",
                                      "title", "sorted_names"):
+                return False
+        if isinstance(v, ast.Name) and _depth < 4 and v.id in f.locals() and f.param(v.id) is None:
+            # a local standing for expressions that are themselves harmless to render (n = len(xs); f"{n}")
+            binds = self.inf.bindings(f).get(v.id, [])
+            exprs = []
+            for b in binds:
+                if b[0] == "assign":
+                    exprs.append(b[1])
+                elif b[0] == "unpack" and b[1][0] == "assign" and isinstance(b[1][1], (ast.Tuple, ast.List)) and b[2] < len(b[1][1].elts):
+                    exprs.append(b[1][1].elts[b[2]])
+                else:
+                    exprs = None
+                    break
+            if exprs and not any(isinstance(e_, ast.Name) or self._may_render_huge_int(e_, f, n, _depth + 1) for e_ in exprs):
                 return False
         ts = self.inf.type_of(v, f)
         def safe(t):
